@@ -13,7 +13,7 @@ ELEM = "element type instantiated to u64 / Nat in the correspondence runs (the t
 
 VEC_RULE = ("engine vec — exhaustive: (A) initial contents of length 0..3 x every mutator with every index 0..len+2, sequences of length 1 and 2 "
             "(thorough: 3), plain+batched subscriber; (B) every transaction body of length <=2 (thorough 3) over 16 ops x 5 ways of ending x with/without "
-            "subscribers; (E) entry(i) for every index 0..len+1, unused / set / remove, on the vector and in a transaction; (LT) 120 (thorough 600) transactions of 17..40 operations; (C) capacities {1,2,3,4,5,7,8} x 0..B+3 unpolled updates x transactions x vector dropped or not x pre-polled or not; (D) every "
+            "subscribers; (E) entry(i) for every index 0..len+1, unused / set / remove, on the vector and in a transaction; (LT) 120 (thorough 600) transactions of 17..40 operations at capacity 16, of 30..74 at capacities 1 and 2; (C) capacities {1,2,3,4,5,7,8} x 0..B+3 unpolled updates x transactions x vector dropped or not x pre-polled or not; (D) every "
             "keep/set/remove/set-remove/stop decision sequence over vectors of length <=3 (thorough 4), direct and in a transaction; random: 2500 (thorough 150000) "
             "histories of 10..50 (80) steps with up to 4 subscribers of both flavours created/dropped/polled at random, capacities {1,2,3,5,7,16,64}, entries, "
             "transactions, final drop of the vector; the model's ghost replica of every polled subscriber is compared with the harness's strict replica. Engine vstep (C05/C06/C08) — poll_next taken apart into its receive operations with the receive hook: exhaustive over capacities {1,2,4} x flavour x 0..B+2 messages queued before the poll x what is injected after each of the first 3 (thorough 4) receive operations (nothing / 1 update / 2 updates / B+1 updates = lag / a two-operation transaction / the drop of the vector), 6912 cases; random: 1500 (thorough 60000) histories with up to 3 subscribers, random operations between polls and random injections after up to 6 receive operations of a poll; every line compared with the fine-grained Lean model SOV.micro. Engine vconc (C05/C06/C08) — a writer thread against a plain and a "
@@ -98,7 +98,7 @@ PROPS = {
         design_ref="DESIGN.md §6 C06"),
     "C07": dict(vec_prop(["EyeballVerif.Props.C07"],
         "c07_abandon: for every list of transaction events (mutators incl. clear, traversals, rollbacks, panicking calls) dropping the transaction restores the exact pre-state "
-        "(contents, log, receivers); c07_inv_run: batch replayed on the pre-state = working copy along every body; c07_commit / c07_commit_replay"),
+        "(contents, log, receivers); c07_inv_run: batch replayed on the pre-state = working copy along every body; c07_commit / c07_commit_replay", engines=[{"name": "vec"}, {"name": "vstep"}]),
         claim=("Lean 4 theorems: abandoning a transaction after any sequence of transaction events leaves contents, channel log and receivers exactly as before (c07_abandon); the transaction "
                "invariant 'recorded batch replayed on the untouched contents = working copy' holds along every body incl. clear and entry traversals (c07_inv_run); commit installs the working "
                "copy, publishes nothing for an empty batch and otherwise exactly one message carrying the whole batch (c07_commit, c07_commit_replay). Tied to the code by exhaustive transaction bodies."),
@@ -315,7 +315,7 @@ ENGINES = [
      "kind_free_text": "differential correspondence (real VectorDiff vs Lean model) + implementation-side oracle"},
     {"name": "vec", "path": "harness/src/eng_vec.rs", "serves_properties": ["C05", "C06", "C07", "C08", "C17"],
      "kind_free_text": "differential correspondence (real ObservableVector/subscriber streams vs Lean model OV) + implementation-side oracles (strict replica, plain-vector reference, pending-message ledger, wake flags)"},
-    {"name": "vstep", "path": "harness/src/eng_vstep.rs", "serves_properties": ["C05", "C06", "C08"],
+    {"name": "vstep", "path": "harness/src/eng_vstep.rs", "serves_properties": ["C05", "C06", "C07", "C08"],
      "kind_free_text": "differential correspondence at the granularity of single receive operations: the verification hook eyeball_im::verif::set_recv_hook is called after every recv()/try_recv() of a poll_next, the harness performs updates, whole transactions and the drop of the vector from inside it (the interleavings a writer on another thread produces, but deterministic and recorded), the Lean model SOV.micro replays them step by step; + implementation-side oracles (strict applicability, Reset = contents at the last receive operation, Pending only in sync, End only after the drop on the final contents, wake rule)"},
     {"name": "vconc", "path": "harness/src/eng_vconc.rs", "serves_properties": ["C05", "C06", "C08", "C09", "C13"],
      "kind_free_text": "writer on its own thread against plain and batched subscriber streams and a batched skip(1) adapter polled on three other threads (a poll is no longer atomic w.r.t. updates: the Lagged arms inside the drain loops); implementation-side oracles only (strict applicability, replica = final contents, End iff dropped) — the interleaving is not recorded, so there is no model trace"},
